@@ -73,7 +73,11 @@ Do(o) ==
             /\ flat' = IF o.op = "fset" THEN FlatSet(flat, o.p[1], o.val.v) ELSE flat
     /\ hist' = Append(hist, o)
 
-Next == Len(hist) < Depth /\ \E o \in Candidates : Do(o)
+\* with the pseudo operation "close" in Ops the last step of a walk is fixed (Data()), so that -simulate,
+\* which evaluates EmitLeaf on every candidate successor, prints each walk once
+Next == /\ Len(hist) < Depth
+        /\ IF "close" \in Ops /\ Len(hist) = Depth - 1 THEN Do(St("data", <<>>, NoVal, 0))
+           ELSE \E o \in Candidates : Do(o)
 Spec == Init /\ [][Next]_vars
 
 (* ---------------- properties of the specification itself -------------- *)
